@@ -164,9 +164,9 @@ theorem upd_sameLocks {k : Bytes} {s s' : MState} (h : Upd k s s') : SameLocks s
 
 /-- every writing string command: `writeKey`, then updates local to the key -/
 theorem set_upd (s : MState) (now : Int) (k v : Bytes) (keep : Bool) :
-    Upd k (writeKey s now k (some .strNil)).1 (Api.set s now k v keep).1 := by
+    Upd k (writeKey s now k (some (.str []))).1 (Api.set s now k v keep).1 := by
   unfold Api.set
-  generalize writeKey s now k (some .strNil) = w
+  generalize writeKey s now k (some (.str [])) = w
   obtain ⟨s1, b⟩ := w
   simp only
   cases asStr s1 k with
@@ -178,9 +178,9 @@ theorem set_upd (s : MState) (now : Int) (k v : Bytes) (keep : Bool) :
     | false => exact .trans (.setVal s1 _) (.trans (.setExp _ 0) (.trans (.signal _) (.emit _ _)))
 
 theorem getSet_upd (s : MState) (now : Int) (k v : Bytes) :
-    Upd k (writeKey s now k (some .strNil)).1 (Api.getSet s now k v).1 := by
+    Upd k (writeKey s now k (some (.str []))).1 (Api.getSet s now k v).1 := by
   unfold Api.getSet
-  generalize writeKey s now k (some .strNil) = w
+  generalize writeKey s now k (some (.str [])) = w
   obtain ⟨s1, b⟩ := w
   simp only
   cases asStr s1 k with
@@ -202,9 +202,9 @@ theorem setNX_upd (s : MState) (now : Int) (k v : Bytes) (keep : Bool) :
     | false => exact .trans (.newKey s1 none _) (.trans (.setExp _ 0) (upd_tail k _ _ _))
 
 theorem append_upd (s : MState) (now : Int) (k d : Bytes) :
-    Upd k (writeKey s now k (some .strNil)).1 (Api.append s now k d).1 := by
+    Upd k (writeKey s now k (some (.str []))).1 (Api.append s now k d).1 := by
   unfold Api.append
-  generalize writeKey s now k (some .strNil) = w
+  generalize writeKey s now k (some (.str [])) = w
   obtain ⟨s1, b⟩ := w
   simp only
   cases asStr s1 k with
@@ -212,9 +212,9 @@ theorem append_upd (s : MState) (now : Int) (k d : Bytes) :
   | some o => exact upd_tail k s1 _ _
 
 theorem setRange_upd (s : MState) (now : Int) (k : Bytes) (off : Int) (d : Bytes) :
-    Upd k (writeKey s now k (some .strNil)).1 (Api.setRange s now k off d).1 := by
+    Upd k (writeKey s now k (some (.str []))).1 (Api.setRange s now k off d).1 := by
   unfold Api.setRange
-  generalize writeKey s now k (some .strNil) = w
+  generalize writeKey s now k (some (.str [])) = w
   obtain ⟨s1, b⟩ := w
   simp only
   cases asStr s1 k with
@@ -226,9 +226,9 @@ theorem setRange_upd (s : MState) (now : Int) (k : Bytes) (off : Int) (d : Bytes
     | some p => exact upd_tail k s1 _ _
 
 theorem setBit_upd (s : MState) (now : Int) (k : Bytes) (off : Int) (x : Bool) :
-    Upd k (writeKey s now k (some .strNil)).1 (Api.setBit s now k off x).1 := by
+    Upd k (writeKey s now k (some (.str []))).1 (Api.setBit s now k off x).1 := by
   unfold Api.setBit
-  generalize writeKey s now k (some .strNil) = w
+  generalize writeKey s now k (some (.str [])) = w
   obtain ⟨s1, b⟩ := w
   simp only
   cases asStr s1 k with
@@ -236,9 +236,9 @@ theorem setBit_upd (s : MState) (now : Int) (k : Bytes) (off : Int) (x : Bool) :
   | some o => exact upd_tail k s1 _ _
 
 theorem addInt_upd (s : MState) (now : Int) (k : Bytes) (d : Int) (neg sw : Bool) :
-    Upd k (writeKey s now k (some .strNil)).1 (Api.addInt s now k d neg sw).1 := by
+    Upd k (writeKey s now k (some (.str []))).1 (Api.addInt s now k d neg sw).1 := by
   unfold Api.addInt
-  generalize writeKey s now k (some .strNil) = w
+  generalize writeKey s now k (some (.str [])) = w
   obtain ⟨s1, b⟩ := w
   simp only
   cases asStr s1 k with
@@ -305,10 +305,10 @@ def Matches : Out → Reply → Prop
 def Refines (s : MState) (now : Int) (ks : Keyspace) : Prop :=
   ∀ k, live s now k = (Keyspace.get ks k).map Val.str
 
-/-- the inputs outside the finding regions of sections 2–4 (F4, F8, F10, negative offsets) and
-    inside the part of SETRANGE the model follows -/
+/-- the inputs outside the finding regions of sections 2–4 (F4, F8, F10, F12, negative offsets)
+    and inside the part of SETRANGE the model follows -/
 def Safe (ks : Keyspace) : Cmd → Prop
-  | .append k d => d ≠ [] ∨ Keyspace.exists_ ks k = true
+  | .getset k _ => Keyspace.exists_ ks k = true
   | .setrange k off d =>
     0 ≤ off ∧ inInt64 (off + (d.length : Int)) = true ∧
     off + (d.length : Int) - (((Keyspace.get ks k).getD []).length : Int) ≤ 1073741824 ∧
@@ -325,7 +325,8 @@ def SafeRun : Keyspace → List Cmd → Prop
   | ks, c :: rest => Safe ks c ∧ SafeRun (step ks c).1 rest
 
 theorem refines_str {s : MState} {now : Int} {ks : Keyspace} (h : Refines s now ks) (k : Bytes) :
-    (∀ v0, live s now k = some v0 → isStrVal v0 = true) ∧ strOf (strAt s now k) = Keyspace.get ks k := by
+    (∀ v0, live s now k = some v0 → isStrVal v0 = true) ∧
+    strOf (strAt s now k) = some ((Keyspace.get ks k).getD []) := by
   constructor
   · intro v0 hl
     rw [h k] at hl
@@ -573,7 +574,7 @@ theorem ref_get (s : MState) (now : Int) (ks : Keyspace) (k : Bytes) (hi : Inv s
     rw [g2]; exact i2
 
 theorem ref_getset (s : MState) (now : Int) (ks : Keyspace) (k v : Bytes) (hi : Inv s) (hw : WLocks s)
-    (hR : Refines s now ks) :
+    (hR : Refines s now ks) (hs : Safe ks (.getset k v)) :
     StepOk (exec s now (.getset k v)).1 (exec s now (.getset k v)).2 now (step ks (.getset k v)).1
       (step ks (.getset k v)).2 := by
   obtain ⟨hstr, hso⟩ := refines_str hR k
@@ -582,8 +583,10 @@ theorem ref_getset (s : MState) (now : Int) (ks : Keyspace) (k v : Bytes) (hi : 
   refine ⟨?_, refines_write hR i3 v (live_of_hot h2), i1, i2⟩
   show Matches (Api.getSet s now k v).2 (match Keyspace.get ks k with | some b => .bulk b | none => .nil)
   rw [h1, hso]
-  cases Keyspace.get ks k with
-  | none => trivial
+  have hex : Keyspace.exists_ ks k = true := hs
+  unfold Keyspace.exists_ at hex
+  cases hg : Keyspace.get ks k with
+  | none => rw [hg] at hex; cases hex
   | some b => exact rfl
 
 theorem ref_setnx (s : MState) (now : Int) (ks : Keyspace) (k v : Bytes) (hi : Inv s) (hw : WLocks s)
@@ -624,26 +627,16 @@ theorem ref_mset (s : MState) (now : Int) (ks : Keyspace) (kvs : List (Bytes × 
     rw [← live_eq_of_lookup, hR x]
 
 theorem ref_append (s : MState) (now : Int) (ks : Keyspace) (k d : Bytes) (hi : Inv s) (hw : WLocks s)
-    (hR : Refines s now ks) (hs : Safe ks (.append k d)) :
+    (hR : Refines s now ks) :
     StepOk (exec s now (.append k d)).1 (exec s now (.append k d)).2 now (step ks (.append k d)).1
       (step ks (.append k d)).2 := by
   obtain ⟨hstr, hso⟩ := refines_str hR k
   obtain ⟨h1, h2, _⟩ := append_ok s now k d hstr
   obtain ⟨i1, i2, i3⟩ := write_step (append_upd s now k d) hi hw (append_sorted s now k d hi.sorted)
   rw [hso] at h1 h2
-  have hval : DsStr.append (Keyspace.get ks k) d =
+  have hval : DsStr.append (some ((Keyspace.get ks k).getD [])) d =
       ((some (Spec.Str.append ((Keyspace.get ks k).getD []) d) : DsStr.S),
-       (((Spec.Str.append ((Keyspace.get ks k).getD []) d).length : Nat) : Int)) := by
-    cases hg : Keyspace.get ks k with
-    | some b => rfl
-    | none =>
-      have hd : d ≠ [] := by
-        rcases hs with hs | hs
-        · exact hs
-        · unfold Keyspace.exists_ at hs; rw [hg] at hs; cases hs
-      cases d with
-      | nil => exact absurd rfl hd
-      | cons a t => rfl
+       (((Spec.Str.append ((Keyspace.get ks k).getD []) d).length : Nat) : Int)) := rfl
   rw [hval] at h1 h2
   exact ⟨by show Matches (Api.append s now k d).2 _; rw [h1]; exact rfl,
     refines_write hR i3 _ (live_of_hot h2), i1, i2⟩
@@ -696,7 +689,7 @@ theorem ref_setbit (s : MState) (now : Int) (ks : Keyspace) (k : Bytes) (off : I
   obtain ⟨hstr, hso⟩ := refines_str hR k
   obtain ⟨h1, h2, _⟩ := setBit_ok s now k off x hstr
   obtain ⟨i1, i2, i3⟩ := write_step (setBit_upd s now k off x) hi hw (setBit_sorted s now k off x hi.sorted)
-  rw [hso, setBit_agree (Keyspace.get ks k) off x h0] at h1 h2
+  rw [hso, setBit_agree (some ((Keyspace.get ks k).getD [])) off x h0] at h1 h2
   show StepOk (Api.setBit s now k off x).1 (Api.setBit s now k off x).2 now
     (match Spec.Str.setbit? ((Keyspace.get ks k).getD []) off x with
       | none => (ks, Reply.err)
@@ -718,19 +711,14 @@ theorem ref_setrange (s : MState) (now : Int) (ks : Keyspace) (k : Bytes) (off :
   have hok := setRange_ok s now k off d hstr
   obtain ⟨i1, i2, i3⟩ := write_step (setRange_upd s now k off d) hi hw (setRange_sorted s now k off d hi.sorted)
   rw [hso] at hok
-  have hbytes : DsStr.bytes (Keyspace.get ks k) = (Keyspace.get ks k).getD [] := rfl
-  have hr : d ≠ [] ∨ off ≤ DsStr.len (Keyspace.get ks k) := by
+  have hbytes : DsStr.bytes (some ((Keyspace.get ks k).getD [])) = (Keyspace.get ks k).getD [] := rfl
+  have hr : d ≠ [] ∨ off ≤ DsStr.len (some ((Keyspace.get ks k).getD [])) := by
     rcases hreg with h | ⟨_, h⟩
     · exact Or.inl h
     · exact Or.inr h
-  obtain ⟨r, e, hb, hl⟩ := setRange_agree (Keyspace.get ks k) off d h0 hwrap hgrow hr
-  have hsome : r.1 = some (DsStr.bytes r.1) := by
-    apply setRange_result_some (Keyspace.get ks k) off d r e h0 hwrap
-    rcases hreg with h | ⟨h, _⟩
-    · exact Or.inr h
-    · left
-      unfold Keyspace.exists_ at h
-      exact h
+  obtain ⟨r, e, hb, hl⟩ := setRange_agree (some ((Keyspace.get ks k).getD [])) off d h0 hwrap hgrow hr
+  have hsome : r.1 = some (DsStr.bytes r.1) :=
+    setRange_result_some (some ((Keyspace.get ks k).getD [])) off d r e h0 hwrap (Or.inl rfl)
   obtain ⟨v', n⟩ := r
   rw [e] at hok
   obtain ⟨h1, h2, _⟩ := hok
@@ -782,7 +770,7 @@ theorem ref_counter (s : MState) (now : Int) (ks : Keyspace) (k : Bytes) (d : In
   have hok := addInt_ok s now k d neg false hstr
   obtain ⟨i1, i2, i3⟩ := write_step (addInt_upd s now k d neg false) hi hw (addInt_sorted s now k d neg false hi.sorted)
   rw [hso] at hok
-  have hstep : counterStep (Keyspace.get ks k) d neg =
+  have hstep : counterStep (some ((Keyspace.get ks k).getD [])) d neg =
       (Spec.Str.incrby ((Keyspace.get ks k).getD []) (if neg then -d else d)).map fun r => (some r.1, r.2) := by
     unfold counterStep
     cases neg
@@ -877,10 +865,10 @@ theorem exec_refines (s : MState) (now : Int) (ks : Keyspace) (c : Cmd) (hi : In
   cases c with
   | set k v => exact ref_set s now ks k v hi hw hR
   | get k => exact ref_get s now ks k hi hw hR
-  | getset k v => exact ref_getset s now ks k v hi hw hR
+  | getset k v => exact ref_getset s now ks k v hi hw hR hs
   | setnx k v => exact ref_setnx s now ks k v hi hw hR
   | mset kvs => exact ref_mset s now ks kvs hi hw hR
-  | append k d => exact ref_append s now ks k d hi hw hR hs
+  | append k d => exact ref_append s now ks k d hi hw hR
   | strlen k => exact ref_strlen s now ks k hi hw hR
   | setrange k off d => exact ref_setrange s now ks k off d hi hw hR hs
   | getbit k off => exact ref_getbit s now ks k off hi hw hR hs
